@@ -317,10 +317,15 @@ def callback_table_cxx(ctx, crate, cx):
         called = [x.get("name") for mc in mcs for x in cxx.walk(mc, lambda n: n.get("kind") == "MemberExpr")]
         okm = called[:1] == [m]
         # receiver is reinterpret_cast<DependencyProvider*>(data)
-        casts = cxx.walk(f, lambda n: n.get("kind") == "CXXReinterpretCastExpr")
+        # (or a static_cast / a small helper function returning DependencyProvider* applied to `data`)
+        casts = cxx.walk(f, lambda n: n.get("kind") in ("CXXReinterpretCastExpr", "CXXStaticCastExpr", "CStyleCastExpr"))
         okr = any("DependencyProvider" in c.get("type", {}).get("qualType", "") and "data" in refs(c) for c in casts)
+        if not okr:
+            for ce in cxx.walk(f, lambda n: n.get("kind") == "CallExpr"):
+                if "DependencyProvider" in ce.get("type", {}).get("qualType", "") and "data" in refs(ce):
+                    okr = True
         # arguments are the middle parameters in order
-        argrefs = [x for mc in mcs[:1] for x in refs(mc) if x != "data"]
+        argrefs = [x for mc in mcs[:1] for x in refs(mc) if x != "data" and x in params]
         has_out = params[-1:] == ["result"]
         mids = params[1:-1] if has_out else params[1:]
         oka = argrefs == mids
